@@ -44,6 +44,8 @@ type Conn struct {
 	fromReceived bool
 	recipients   []string
 	didAuth      bool
+
+	closed bool // Close has been called
 }
 
 func newConn(c net.Conn, s *Server) *Conn {
@@ -180,7 +182,14 @@ func (c *Conn) Close() error {
 		c.session = nil
 	}
 
+	c.closed = true
 	return c.conn.Close()
+}
+
+func (c *Conn) isClosed() bool {
+	c.locker.Lock()
+	defer c.locker.Unlock()
+	return c.closed
 }
 
 // TLSConnectionState returns the connection's TLS connection state.
